@@ -323,7 +323,15 @@ def stepSinkOp (d : DState) (op : String) (toks impl : List String) : Option (DS
     let d := d.flag (if i.hist.isEmpty then "sink.fin-empty" else if i.hist.length == 1 then "sink.fin-one" else "sink.fin-many")
     let cl : List Clause := if i.hist.any isNan then partialOrderClauses i.kind i.hist ((parseOut impl).getD none)
       else [{ name := "C11.finalize", ok := e == implS, expected := e }]
+    let d := d.putSink id { i with lastFin := some implS }
     some (report d op { model := renderFin i.k.finalize, impl := implS, kind := i.kind, clauses := cl })
+  | ["ksame", a, b, clause] => do
+    -- two sinks fed in lockstep (a wrapper and the bare sink): their most recent finalised results agree
+    let ia ← d.getSink (← a.toNat?)
+    let ib ← d.getSink (← b.toNat?)
+    let (ea, eb) := (ia.lastFin.getD "-", ib.lastFin.getD "-")
+    some (report d op { model := "ok", impl := implS, kind := ia.kind,
+                        clauses := [{ name := clause, ok := ea == eb, expected := eb }] })
   | _ => none
 
 /-! ### pipes -/
